@@ -149,17 +149,55 @@ def prepare_corpus(work, tag, cfg, only=None):
     return jobs, skipped
 
 
+def select_witnesses(ws, cap):
+    """At most `cap` witnesses per function are replayed; keep a mix of kinds (one per path first,
+    then limb-pattern and boundary witnesses) instead of the first `cap` in generation order."""
+    if len(ws) <= cap:
+        return ws
+    by = {"path": [], "pattern": [], "boundary": []}
+    for w in ws:
+        by.setdefault(w.get("kind", "path"), []).append(w)
+    quota = {"path": cap // 2, "pattern": cap // 4, "boundary": cap - cap // 2 - cap // 4}
+    out = []
+    for k in ("path", "pattern", "boundary"):
+        out += by.get(k, [])[:quota[k]]
+    rest = [w for k in by for w in by[k][quota.get(k, 0):]]
+    return (out + rest)[:cap]
+
+
 def run_pool(worker, tasks, log_path):
     """Unordered parallel map with a progress log (one line per finished function)."""
     results = []
+    cap = 40 if os.environ.get("VERIF_CUR_TIER") == "thorough" else 12
     with open(log_path, "w") as log, mp.Pool(common.NPROC) as pool:
         for r in pool.imap_unordered(worker, tasks, chunksize=1):
+            if r.get("witnesses"):
+                # only `cap` witnesses per function are replayed; dropping the others here keeps
+                # the driver's memory bounded (a thorough C17 run was killed for lack of memory)
+                r["n_witnesses"] = len(r["witnesses"])
+                ws = select_witnesses(r["witnesses"], cap)
+                wdir = os.path.join(os.path.dirname(log_path), "witnesses")
+                os.makedirs(wdir, exist_ok=True)
+                r["witnesses_file"] = os.path.join(wdir, f"{len(results)}.json")
+                with open(r["witnesses_file"], "w") as wf:
+                    json.dump(ws, wf)
+                # the driver keeps one small summary; the traces stay on disk until replayed
+                r["witnesses"] = [{"args": ws[0]["args"], "view": ws[0]["view"],
+                                   "trace_len": len(ws[0]["trace"])}]
             results.append(r)
             log.write(json.dumps({k: r.get(k) for k in ("name", "status", "secs", "paths",
                                                          "queries", "discharged", "reason")}) + "\n")
             log.flush()
     results.sort(key=lambda r: (r["name"], r.get("dump", "")))
     return results
+
+
+def wit(r):
+    """The witnesses of a result (spilled to disk by run_pool)."""
+    if r.get("witnesses_file"):
+        with open(r["witnesses_file"]) as f:
+            return json.load(f)
+    return r.get("witnesses", [])
 
 
 class Replayers:
@@ -327,7 +365,7 @@ def generic(args, prop, worker, cfgs, confirm, level="model_checking", extra_tas
         fcost = workers.func_cost(progs[dump_path], f)
         rp = reps.get(src, cfg)
         nw = 0
-        for w in r["witnesses"]:
+        for w in wit(r):
             if nw >= (40 if tier == "thorough" else 12):
                 break
             if w["args"] is None:
@@ -401,7 +439,7 @@ def generic(args, prop, worker, cfgs, confirm, level="model_checking", extra_tas
             w = r["witnesses"][0]
             samples.append({"function": r["name"], "paths": r["paths"], "queries": r["queries"],
                             "witness_args": w["args"], "witness_result": w["view"],
-                            "trace_len": len(w["trace"])})
+                            "trace_len": w["trace_len"] if "trace_len" in w else len(w["trace"])})
     tp = workers.tier_params(tier)
     cov = {
         "states": sum(r["steps"] + r["paths"] for r in ok) or 1,
@@ -699,7 +737,7 @@ def run_c05(args):
         if r["status"] != "ok":
             continue
         src = meta[(r["dump"], r["name"])]
-        for w in r["witnesses"][:(30 if tier == "thorough" else 10)]:
+        for w in wit(r)[:(30 if tier == "thorough" else 10)]:
             if w["args"] is None:
                 continue
             cfg = dict(cfg_of[w["variant"]], allow_warnings=True)
